@@ -11,6 +11,11 @@ import ast
 from .index import u
 
 
+class Model:
+    """Base class of the stand-in objects a rule may put into the environment (a fake path, ...): the interpreter calls their methods and reads
+    their attributes directly."""
+
+
 class Unsupported(Exception):
     pass
 
@@ -160,11 +165,25 @@ def ev(node, env):
         return ev(node.value, env)[ev(node.slice, env)]
     if isinstance(node, ast.IfExp):
         return ev(node.body, env) if ev(node.test, env) else ev(node.orelse, env)
-    if isinstance(node, ast.Call) and isinstance(node.func, ast.Attribute) and node.func.attr in ('get', 'startswith', 'endswith', 'keys', 'values', 'items', 'isdigit', 'copy', 'split', 'replace', 'strip', 'lower', 'upper', 'casefold') \
+    if isinstance(node, ast.Lambda) and not node.args.vararg and not node.args.kwarg and not node.args.defaults:
+        params = [a.arg for a in node.args.posonlyargs + node.args.args]
+        return lambda *args, _n=node, _env=env: ev(_n.body, dict(_env, **dict(zip(params, args))))
+    if isinstance(node, ast.Call) and isinstance(node.func, ast.Lambda):
+        return ev(node.func, env)(*[ev(a, env) for a in node.args])
+    if isinstance(node, ast.Call) and isinstance(node.func, ast.Attribute) and node.func.attr in ('get', 'startswith', 'endswith', 'keys', 'values', 'items', 'isdigit', 'copy', 'split', 'replace', 'strip', 'lower', 'upper', 'casefold', 'join', 'count') \
             and u(node.func) not in env and u(node.func) not in BUILTINS:
         recv = ev(node.func.value, env)
         if isinstance(recv, (dict, str)):
             return getattr(recv, node.func.attr)(*[ev(a, env) for a in node.args])
+    if isinstance(node, ast.Call) and isinstance(node.func, ast.Attribute) and u(node.func) not in env:
+        try:
+            recv_m = ev(node.func.value, env)
+        except Unsupported:
+            recv_m = None
+        if isinstance(recv_m, Model):
+            return getattr(recv_m, node.func.attr)(*[ev(a, env) for a in node.args], **{k.arg: ev(k.value, env) for k in node.keywords if k.arg})
+        if isinstance(recv_m, str) and node.func.attr == 'format':
+            return recv_m.format(*[ev(a, env) for a in node.args], **{k.arg: ev(k.value, env) for k in node.keywords if k.arg})
     if isinstance(node, ast.Call):
         name = u(node.func)
         fn = env.get(name) if name in env else BUILTINS.get(name)
@@ -174,11 +193,23 @@ def ev(node, env):
                 return getattr(recv, node.func.attr)(*[ev(a, env) for a in node.args])
         if fn is None:
             raise Unsupported('call ' + name)
-        return fn(*[ev(a, env) for a in node.args], **{k.arg: ev(k.value, env) for k in node.keywords if k.arg})
+        args = []
+        for a in node.args:
+            if isinstance(a, ast.Starred):
+                args.extend(list(ev(a.value, env)))
+            else:
+                args.append(ev(a, env))
+        return fn(*args, **{k.arg: ev(k.value, env) for k in node.keywords if k.arg})
     if isinstance(node, ast.Attribute):
         name = u(node)
         if name in env:
             return env[name]
+        try:
+            base = ev(node.value, env)
+        except Unsupported:
+            base = None
+        if isinstance(base, Model):
+            return getattr(base, node.attr)
     raise Unsupported(type(node).__name__ + ' ' + u(node)[:40])
 
 
@@ -258,6 +289,46 @@ def run_stmts(stmts, env):
                 else:
                     raise
             else:
+                run_stmts(st.orelse, env)
+        elif isinstance(st, ast.FunctionDef) and not st.decorator_list and not st.args.vararg and not st.args.kwarg:
+            # a local helper: a closure over the current environment
+            def closure(*args, _st=st, _env=env, **kwargs):
+                local = dict(_env)
+                params = [a.arg for a in _st.args.posonlyargs + _st.args.args]
+                if len(args) > len(params):
+                    raise Unsupported('call arity')
+                defaults = dict(zip(params[len(params) - len(_st.args.defaults):], _st.args.defaults)) if _st.args.defaults else {}
+                for p_, d_ in defaults.items():
+                    local[p_] = ev(d_, _env)
+                local.update(zip(params, args))
+                local.update(kwargs)
+                if any(p_ not in local for p_ in params):
+                    raise Unsupported('call arity')
+                try:
+                    run_stmts(_st.body, local)
+                except Returned as r:
+                    return r.value
+                return None
+            env[st.name] = closure
+        elif isinstance(st, ast.Delete) and all(isinstance(t, ast.Subscript) and isinstance(t.value, (ast.Name, ast.Attribute)) for t in st.targets):
+            for t in st.targets:
+                del ev(t.value, env)[ev(t.slice, env)]
+        elif isinstance(st, ast.While):
+            # bounded: a loop that has not finished after 64 rounds is outside the small domain
+            rounds = 0
+            broke = False
+            while ev(st.test, env):
+                rounds += 1
+                if rounds > 64:
+                    raise Unsupported('long iteration')
+                try:
+                    run_stmts(st.body, env)
+                except Continued:
+                    continue
+                except Broke:
+                    broke = True
+                    break
+            if not broke:
                 run_stmts(st.orelse, env)
         elif isinstance(st, ast.Break):
             raise Broke()
